@@ -400,7 +400,11 @@ class PauliTerm:
 class PauliSum:
     def __init__(self, terms: Optional[Union[str, Sequence[PauliTerm]]] = None):
         if isinstance(terms, str):
-            terms = [PauliTerm(s.strip()) for s in re.split(r"\+(?![^(]*\))", terms)]
+            # Split on "+" outside brackets, but not on the sign of an exponent ("1e+16").
+            terms = [
+                PauliTerm(s.strip())
+                for s in re.split(r"(?<![eE])\+(?![^(]*\))", terms)
+            ]
         if terms is None:
             # If no terms is given, the PauliSum has a value of zero.
             terms = []
